@@ -45,17 +45,18 @@ class Engine:
         self.timeout_ms = timeout_ms
         self.global_axioms = []  # formulas valid in every state
         self.modular_hook = None  # set by verify: apply contract at call
+        self.ctor_hook = None
 
     # ----------------------------------------------------------------------------------
     # feasibility and branching
     def feasible(self, state, extra=None):
+        # pruning only: uses the quantifier-free part of the path condition (sound: fewer
+        # hypotheses can only keep more paths alive; obligations on dead paths are vacuous)
         s = z3.Solver()
-        s.set(timeout=1500)
-        for a in self.global_axioms:
-            s.add(a)
-        for a in state.axioms:
-            s.add(a)
-        s.add(*state.pc)
+        s.set(timeout=800)
+        for f in state.pc:
+            if not _has_quant(f):
+                s.add(f)
         if extra is not None:
             s.add(extra)
         return s.check() != z3.unsat
@@ -926,6 +927,11 @@ class Engine:
         if cls in EXC_PARENT:
             yield VOpaque("exc:" + cls), state
             return
+        if self.ctor_hook is not None and state.env.get("__ctor_inline__") != cls:
+            res = self.ctor_hook(self, cls, args, kwargs, state, node)
+            if res is not None:
+                yield from res
+                return
         h = self.builtins.get("construct:" + cls)
         if h is not None:
             yield from h(self, args, kwargs, state, node)
@@ -1028,6 +1034,27 @@ class Engine:
                 yield kind, payload, s2
             else:
                 raise Unsupported("break/continue outside loop")
+
+
+_QC = {}
+
+
+def _has_quant(f):
+    k = f.get_id()
+    if k in _QC:
+        return _QC[k][0]
+    seen, stack, res = set(), [f], False
+    while stack:
+        x = stack.pop()
+        if x.get_id() in seen:
+            continue
+        seen.add(x.get_id())
+        if z3.is_quantifier(x):
+            res = True
+            break
+        stack.extend(x.children())
+    _QC[k] = (res, f)  # keep f alive so the id is not reused
+    return res
 
 
 def _as_load(target):
